@@ -3999,8 +3999,11 @@ https://gcc.gnu.org/bugzilla/show_bug.cgi?id=47485'''))
             compile_args += linker.get_target_link_early_args(target)
         if compile_args:
             elem.add_item('ARGS', compile_args)
-        elem.add_item('LINK_ARGS', commands)
+        # Record the introspection data first: it renders a copy, whereas
+        # add_item() renders `commands` in place (to_native() adds the
+        # --start-group/--end-group markers to the list itself).
         self.create_target_linker_introspection(target, linker, commands)
+        elem.add_item('LINK_ARGS', commands)
         return elem
 
     def get_import_std_object(self, target: build.BuildTarget) -> T.List[str]:
